@@ -197,7 +197,7 @@ func c07Unit1(r interface{ IntN(int) int }, i int, rnd *gen.G, last bool) c07Uni
 func pick2(r interface{ IntN(int) int }, xs []string) string { return xs[r.IntN(len(xs))] }
 
 func c07Gen(c *core.Ctx) {
-	n := c.Pick(20000, 200000)
+	n := c.Pick(20000, 1000000)
 	for i := 0; i < n; i++ {
 		if !c.Mine() {
 			continue
@@ -343,7 +343,7 @@ func c10Judge(c *core.Ctx, key string, delivered int, inj, err error, got, want 
 }
 
 func c10Gen(c *core.Ctx) {
-	n := c.Pick(3000, 20000)
+	n := c.Pick(3000, 60000)
 	for i := 0; i < n; i++ {
 		if !c.Mine() {
 			continue
